@@ -62,7 +62,7 @@ def impl_parse(name):
 BASES = [("a", 0x61), ("e", 0x65), ("o", 0x6F), ("ka-deva", 0x915), ("A", 0x41)]
 MARKS = [("acutecomb", 0x301), ("gravecomb", 0x300), ("dotbelowcomb", 0x323), ("cedillacomb", 0x327), ("anusvara-deva", 0x902),
          ("nukta-deva", 0x93C)]
-LIGAS = [("f_i", None), ("f_f_i", None)]
+LIGAS = [("f_i", None), ("f_f_i", None), ("s_a_l_l_a_a_l_l_a_h_u_a", None)]     # 2, 3 and 12 components (two-digit anchor numbers)
 KEYS = ["top", "bottom", "ogonek", "top.alt", "nukta"]
 
 
